@@ -109,9 +109,9 @@ def main():
     checker_cmd = "make -C coq -j16 " + " ".join(mod.COQ_TARGETS) + " && coqc work/audit_%s.v (Check + Print Assumptions vs coq/statements.lock)" % prop
     if tier == "thorough" and proof_broken is None and os.environ.get("VERIF_NO_COQCHK") != "1":
         try:
-            rc, out = lib.sh(["coqchk", "-silent", "-o", "-Q", lib.COQ, "MdIt", "MdIt." + prop], cwd=lib.COQ, timeout=3000, check=False)
+            rc, out = lib.sh(["coqchk", "-silent", "-o", "-Q", lib.COQ, "MdIt", "MdIt.props." + prop], cwd=lib.COQ, timeout=3000, check=False)
             notes.append("coqchk rc=%d: %s" % (rc, " ".join(out.split())[-600:]))
-            checker_cmd += " && coqchk -silent -o MdIt." + prop
+            checker_cmd += " && coqchk -silent -o MdIt.props." + prop
             if rc != 0:
                 au["problems"].append("coqchk failed")
                 au["discharged"] = 0
